@@ -65,6 +65,7 @@ pub const OP_SHRINK: u8 = 18;
 pub const OP_CLONE: u8 = 19;
 pub const OP_INTO_ITER: u8 = 20;
 pub const OP_INTO_SLICE: u8 = 21;
+pub const OP_DEDUP_BY: u8 = 22;
 
 unsafe fn setup<'a, const LEN: usize>(bump: &'a Bump, e: &[u8; 4]) -> (BVec<'a, u8>, Model) {
     let mut v = BVec::with_capacity_in(4, bump);
@@ -247,6 +248,19 @@ pub fn v1<const LEN: usize, const OP: u8>() {
                 while k < m.n {
                     let eq = if OP == OP_DEDUP { m.a[k] == m.a[k - 1] } else { m.a[k] >> 1 == m.a[k - 1] >> 1 };
                     if eq {
+                        m.remove(k);
+                    } else {
+                        k += 1;
+                    }
+                }
+            }
+            OP_DEDUP_BY => {
+                // asymmetric relation: same_bucket(a, b) is called with a = the later element and
+                // b = the earlier (kept) one; a is removed when it returns true (std contract)
+                v.dedup_by(|a, b| *a > *b);
+                let mut k = 1;
+                while k < m.n {
+                    if m.a[k] > m.a[k - 1] {
                         m.remove(k);
                     } else {
                         k += 1;
@@ -460,6 +474,7 @@ vh!(v1_drain_l4, 14, v1::<4, OP_DRAIN>());
 vh!(v1_retain_l3, 14, v1::<3, OP_RETAIN>());
 vh!(v1_dedup_l3, 14, v1::<3, OP_DEDUP>());
 vh!(v1_dedup_key_l4, 14, v1::<4, OP_DEDUP_KEY>());
+vh!(v1_dedup_by_l3, 14, v1::<3, OP_DEDUP_BY>());
 vh!(v1_reserve_l2, 14, v1::<2, OP_RESERVE>());
 vh!(v1_reserve_l4, 14, v1::<4, OP_RESERVE>());
 vh!(v1_shrink_l2, 14, v1::<2, OP_SHRINK>());
